@@ -117,6 +117,8 @@ pub trait Mkt {
     fn set_time(&mut self, t: u64);
     fn enable_trading(&mut self);
     fn disable_trading(&mut self);
+    /// trading switch of one asset's book only (`Market::get_order_book_mut(a)`)
+    fn set_trading_asset(&mut self, a: usize, on: bool);
     fn reset_trade_vols(&mut self);
     fn create(&mut self, a: usize, bid: bool, vol: u32, trader: u32, price: Option<u32>) -> Result<(usize, usize), String>;
     fn create_and_place(&mut self, a: usize, bid: bool, vol: u32, trader: u32, price: Option<u32>) -> Result<(usize, usize), String>;
@@ -152,6 +154,13 @@ impl<const L: usize> Mkt for OrderBook<L> {
     }
     fn disable_trading(&mut self) {
         OrderBook::disable_trading(self)
+    }
+    fn set_trading_asset(&mut self, _a: usize, on: bool) {
+        if on {
+            OrderBook::enable_trading(self)
+        } else {
+            OrderBook::disable_trading(self)
+        }
     }
     fn reset_trade_vols(&mut self) {
         self.reset_trade_vol()
@@ -220,6 +229,14 @@ impl<const A: usize, const L: usize> Mkt for Market<A, L> {
     }
     fn disable_trading(&mut self) {
         Market::disable_trading(self)
+    }
+    fn set_trading_asset(&mut self, a: usize, on: bool) {
+        let b = self.get_order_book_mut(a);
+        if on {
+            b.enable_trading()
+        } else {
+            b.disable_trading()
+        }
     }
     fn reset_trade_vols(&mut self) {
         Market::reset_trade_vols(self)
